@@ -68,7 +68,11 @@ EXHAUSTIVE = {"quick": True, "thorough": True}
 TIMEOUT = {"quick": 900, "thorough": 7200}
 
 FAULTS = {"quick": ["EIO", "kill"], "thorough": ["EIO", "ENOSPC", "EACCES", "kill"]}
+FIRST_FAULTS = {"quick": ["EIO"], "thorough": ["EIO", "EXDEV"]}
 FAMILIES = ["seqs", "tree", "table", "dictarray", "treecollection"]
+DESTDIR_WRITERS = {
+    "quick": ["aln-fasta", "sc-json", "nsc-phylip", "tree-nwk", "tree-json", "table-tsv", "table-pickle", "da-tsv", "tc-trees"],
+}
 
 QUICK_AUDIT = [
     "aln-fasta", "arr-phylip", "sc-json", "nsc-fasta", "aln-gde", "arr-paml", "tree-nwk", "tree-json", "tree-xml",
@@ -86,14 +90,17 @@ def gen_cases(rng, tier):
     audit_ops, strace_ops = [], []
     writers = sorted(WRITERS)
     if tier == "quick":
-        chosen = list(QUICK_AUDIT) + rng.sample([w for w in writers if w not in QUICK_AUDIT], 4)
+        chosen = list(QUICK_AUDIT) + rng.sample([w for w in writers if w not in QUICK_AUDIT], 2)
     else:
         chosen = writers
     for w in chosen:
         for t in targets_for(w):
             for pre in (True, False):
                 size = "large" if (tier == "thorough" or rng.random() < 0.3) and pre else "small"
-                audit_ops.append({"writer": w, "target": t, "pre": pre, "size": size, "injector": "audit", "faults": faults})
+                op = {"writer": w, "target": t, "pre": pre, "size": size, "injector": "audit", "faults": faults}
+                if tier == "thorough" or rng.random() < 0.2:
+                    op["two_fault"] = FIRST_FAULTS[tier]
+                audit_ops.append(op)
                 if tier == "thorough" and pre:
                     audit_ops.append({"writer": w, "target": t, "pre": pre, "size": "small", "injector": "audit", "faults": faults})
     if tier == "quick":
@@ -105,7 +112,7 @@ def gen_cases(rng, tier):
     for w, t in pairs:
         for pre in (True, False):
             size = "large" if pre and (tier == "thorough" or rng.random() < 0.5) else "small"
-            strace_ops.append({"writer": w, "target": t, "pre": pre, "size": size, "injector": "strace", "faults": faults})
+            strace_ops.append({"writer": w, "target": t, "pre": pre, "size": size, "injector": "strace", "faults": faults, "two_fault": FIRST_FAULTS[tier]})
     fail_ops = []
     for f in sorted(FAILS):
         tg = ["plain"] if f == "table-pickle-compressed" else ["plain", "gz", "zip"]
@@ -114,14 +121,21 @@ def gen_cases(rng, tier):
         for t in tg:
             for pre in (True, False):
                 fail_ops.append({"fail": f, "target": t, "pre": pre, "injector": "none"})
+    # the destination path is an existing directory (empty / non-empty): handled-failure class, every family
+    for w in DESTDIR_WRITERS["quick"] if tier == "quick" else writers:
+        for t in targets_for(w):
+            if tier == "quick" and t == "bz2":
+                continue
+            for dd in ("empty", "nonempty"):
+                fail_ops.append({"writer": w, "target": t, "destdir": dd, "injector": "none"})
     cases = []
     rng.shuffle(audit_ops)
     rng.shuffle(strace_ops)
-    for ch in _chunks(audit_ops, 6 if tier == "quick" else 10):
+    for ch in _chunks(audit_ops, 8 if tier == "quick" else 10):
         cases.append({"kind": "inject", "ops": ch})
     for ch in _chunks(strace_ops, 2 if tier == "quick" else 3):
         cases.append({"kind": "inject", "ops": ch})
-    for ch in _chunks(fail_ops, 20):
+    for ch in _chunks(fail_ops, 40):
         cases.append({"kind": "inject", "ops": ch})
     # resume
     maxn = 4 if tier == "quick" else 8
@@ -133,8 +147,18 @@ def gen_cases(rng, tier):
                 bad = set(rng.sample(range(n), nbad))
                 ids = [f"{'bad' if i in bad else 'rec'}{i:02d}" for i in range(n)]
                 rcases.append({"ids": ids, "store": store, "logger": bool((n + variant) % 2), "kills": list(range(1, n + 1))})
+        # processing order fixed by the harness: the failing records come last, so that for late interruption points
+        # everything the second run still has to do fails; plus an interruption right after the last record was stored
+        # (before apply_to finishes), so that the second run has nothing left to do
+        for n in range(2, maxn + 1):
+            if tier == "quick" and n > 3:
+                continue
+            for nbad in sorted({0, 1, n - 1}) if tier == "thorough" else ([0] if n == 2 else [1, 2]):
+                ids = [f"rec{i:02d}" for i in range(n - nbad)] + [f"bad{i:02d}" for i in range(n - nbad, n)]
+                rcases.append({"ids": ids, "store": store, "logger": bool((n + nbad) % 2), "ordered": True,
+                               "kills": list(range(1, n + 1)), "kills_after_write": [n]})  # fmt: skip
     rng.shuffle(rcases)
-    for ch in _chunks(rcases, 2 if tier == "quick" else 4):
+    for ch in _chunks(rcases, 4):
         cases.append({"kind": "resume", "cases": ch})
     return cases
 
@@ -411,6 +435,25 @@ def decide_op(res, r, blobs):
         raise RuntimeError(f"clean run of {desc} ended abnormally: {clean['status']}")
     after = clean["after"]
 
+    if desc.get("destdir"):
+        # the destination path is an existing directory: the write cannot complete, so it is a handled failure:
+        # an exception reaches the caller and the directory tree is exactly what it was
+        res.evals += 1
+        res.count("dest-is-directory:cases")
+        res.count(f"dest-is-directory:{fam}")
+        res.sig("dest-is-directory", _label(desc), case.target, desc["destdir"])
+        before = r["before"]
+        if rep["returned"]:
+            res.witness(f"C19/dest-is-directory/{fam}/write-reported-success", entries_before=sorted(before), entries_after=sorted(after), **base_detail)
+            return
+        inside = sorted(k for k in set(after) | set(before) if (k == case.dest or k.startswith(case.dest + "/")) and after.get(k) != before.get(k))
+        beside = sorted(k for k in after if k not in before and not (k == case.dest or k.startswith(case.dest + "/")))
+        if inside:
+            res.witness(f"C19/dest-is-directory/{fam}/directory-changed", exception=rep["exc"], changed=inside, **base_detail)
+        if beside:
+            res.witness(f"C19/dest-is-directory/{fam}/temp-left-behind", exception=rep["exc"], left_behind=beside, **base_detail)
+        return
+
     if not rep["returned"]:
         # the call failed on its own: the handled-failure class
         cls = "format-failure" if desc.get("fail") else "refused-write"
@@ -544,12 +587,100 @@ def decide_op(res, r, blobs):
             res.witness(f"C19/oserror/{phase_name}/{outcome_name(case, st)}", expected=case.untouched, **detail)
         if extras:
             res.witness(f"C19/oserror/{phase_name}/temp-left-behind", left_behind=extras, **detail)
+    if r.get("two_fault"):
+        decide_two_fault(res, r, case, inj, fam, commit, base_detail)
     if done == expected_runs:
         res.count("cases-complete")
         res.count(f"exhaustive:{fam}:{case.target}:{inj}")
     else:
         res.count("cases-incomplete")
     res.sample({"op": desc, "boundaries": nb, "classes": phases, "commit_boundary": commit})
+
+
+def decide_two_fault(res, r, case, inj, fam, commit, base_detail):
+    """first fault = OSError at the commit boundary; second = kill / OSError at each boundary that follows in that run"""
+    desc = r["desc"]
+    for block in r["two_fault"]:
+        c, e1 = block["first"]
+        if commit is None or c != commit:
+            raise RuntimeError(f"two-fault first boundary {c} is not the commit boundary {commit} for {desc}")
+        if block.get("record_failed") or "record" not in block:
+            res.count("two-fault:record-failed")
+            continue
+        rec = block["record"]
+        rrep = rec["report"]
+        if rrep is None:
+            res.count("two-fault:record-failed")
+            continue
+        first_raised = not rrep["returned"]
+        res.count(f"two-fault:blocks:{inj}")
+        if inj == "audit":
+            events = rrep["events"]
+            phases = [audit_phase(ev, case.dest) for ev in events]
+        else:
+            events = rec["calls"]
+            phases, _ = strace_phases(events, case.dest)
+        nb2 = block.get("boundaries", 0)
+        res.count(f"two-fault:boundaries:{inj}", nb2)
+        done = skipped = 0
+        for run in block["runs"]:
+            if run.get("skipped"):
+                skipped += 1
+                res.count("two-fault:strace-same-syscall-skipped")
+                continue
+            k2 = run["k2"] if inj == "audit" else run["pos2"] + 1
+            f2 = run["fault2"]
+            fine = phases[k2 - 1]
+            status, rep2, after = run["status"], run.get("report"), run.get("after")
+            if run.get("attach_failed"):
+                res.count("strace:attach-failed")
+                continue
+            if inj == "strace":
+                if not run.get("consistent"):
+                    res.count("strace:prefix-mismatch")
+                    continue
+                delivered = True
+            else:
+                delivered = (status == {"exit": 137}) if f2 == "kill" else bool(rep2 and rep2.get("delivered2"))
+            if not delivered:
+                res.count(f"{inj}:undelivered")
+                continue
+            done += 1
+            res.evals += 1
+            res.count(f"two-fault:delivered:{inj}:{'kill' if f2 == 'kill' else 'error'}")
+            st = case.state(after)
+            extras = case.extras(after)
+            res.sig("two-fault", inj, _label(desc), case.target, case.pre, e1, fine, f2)
+            detail = dict(base_detail, injector=inj, first_fault={"boundary": c, "errno": e1, "event": events[c - 1]},
+                          second_fault={"boundary": k2, "fault": f2, "class": fine, "event": events[k2 - 1]},
+                          call_fails_with_first_fault_alone=first_raised, destination_state=st, entries_after=sorted(after))  # fmt: skip
+            if f2 == "kill":
+                if status not in ({"exit": 137}, {"signal": 9}):
+                    res.witness("C19/two-fault/kill/process-survived", status=status, **detail)
+                elif st not in (case.untouched, "new"):
+                    res.witness(f"C19/two-fault/kill/{outcome_name(case, st)}", **detail)
+                continue
+            if status != {"exit": 0} or rep2 is None or "garbled" in rep2:
+                res.witness("C19/two-fault/oserror/abnormal-termination", status=status, **detail)
+                continue
+            if rep2["returned"]:
+                if st != "new":
+                    res.witness(f"C19/two-fault/returned-normally/{outcome_name(case, st)}", **detail)
+                continue
+            detail["exception"] = rep2["exc"]
+            if st != case.untouched:
+                res.witness(f"C19/two-fault/oserror/{outcome_name(case, st)}", expected=case.untouched, **detail)
+            if extras:
+                if not fine.endswith("-dest"):
+                    # after the failed commit the call only removes its staging directory; a second fault on a
+                    # boundary that concerns the staging entries (not the destination) hits that removal itself
+                    res.count("two-fault:cleanup-fault-entries-left")
+                else:
+                    res.witness("C19/two-fault/oserror/temp-left-behind", left_behind=extras, **detail)
+        if done + skipped == nb2 * len(desc["faults"]):
+            res.count("two-fault:blocks-complete")
+        else:
+            res.count("cases-incomplete")
 
 
 # ---------------------------------------------------------------------------
@@ -582,16 +713,22 @@ def decide_resume(res, rec):
     if sorted(order) != sorted(ids) or {i: k for i, k, _, _ in ref} != exp_kinds or not all(ok for *_, ok in ref):
         res.witness(f"C19/resume/{store}/uninterrupted-run-incomplete", executed=order, store=[(i, k) for i, k, _, _ in ref], replay_case=replay)
         return
+    if case.get("ordered") and order != ids:
+        raise RuntimeError(f"ordered inputs were processed in another order: {order} vs {ids}")
     for run in rec["runs"]:
-        k = run["k"]
+        kw = run.get("after_write")
+        ex1 = [_rid(x) for x in run["first_executed"]]
+        # k = number of step executions in the interrupted run; with an interruption after the kw-th stored record
+        # every one of them finished
+        k = run["k"] if kw is None else len(ex1) + 1
         res.evals += 1
         res.count("resume:prefixes")
         res.count(f"resume:{store}")
-        detail = dict(inputs=ids, store=store, kill_at_execution=k, first_executed=run["first_executed"], second_executed=run["second_executed"], replay_case={"kind": "resume", "cases": [dict(case, kills=[k])]})  # fmt: skip
-        ex1 = [_rid(x) for x in run["first_executed"]]
+        only = dict(case, kills=[run["k"]], kills_after_write=[]) if kw is None else dict(case, kills=[], kills_after_write=[kw])
+        detail = dict(inputs=ids, store=store, kill_at_execution=run["k"], kill_after_stored_record=kw, first_executed=run["first_executed"], second_executed=run["second_executed"], replay_case={"kind": "resume", "cases": [only]})  # fmt: skip
         nbad_before = sum(1 for i in ex1[: k - 1] if i.startswith("bad"))
-        res.sig("resume", store, n, k, nbad_before, case.get("logger"))
-        if run["first_status"] != {"exit": 9} or len(ex1) != k:
+        res.sig("resume", store, n, k, nbad_before, case.get("logger"), "after-write" if kw else "at-step")
+        if run["first_status"] != {"exit": 9} or len(ex1) != (k if kw is None else kw):
             res.witness(f"C19/resume/{store}/interruption-not-at-kth-record", first_status=run["first_status"], first_exc=run.get("first_exc"), **detail)
             continue
         if "store_after_kill" not in run:
@@ -637,6 +774,19 @@ def decide_resume(res, rec):
             else:
                 cls = "content-differs"
             res.witness(f"C19/resume/{store}/final-store-differs/{cls}", final=[(i, kd) for i, kd, _, _ in fin], uninterrupted=[(i, kd) for i, kd, _, _ in ref], **detail)  # fmt: skip
+        # what the second run had to do
+        left = [i for i in ids if i not in done1]
+        if not (set(ids) - any1):
+            res.count("resume:second-run-nothing-left")
+        elif all(i.startswith("bad") for i in set(ids) - any1):
+            res.count("resume:second-run-only-failures-left")
+        # store-level state (read with sqlite3 / os, not through the library)
+        mref, mfin = rec.get("ref_meta"), run.get("meta_final")
+        if mref is not None and mfin is not None:
+            res.count("resume:store-level-compared")
+            diff = sorted(key for key in set(mref) | set(mfin) if mref.get(key) != mfin.get(key))
+            if diff:
+                res.witness(f"C19/resume/{store}/store-level-state-differs/{'+'.join(diff)}", uninterrupted=mref, resumed=mfin, left_for_second_run=left, **detail)  # fmt: skip
     res.sample({"resume": case})
 
 
@@ -675,6 +825,16 @@ def required(counters, tier):
     need("format-failure:cases", 10)
     need("resume:dir", 4)
     need("resume:sqlite", 4)
+    need("resume:second-run-nothing-left", 2)
+    need("resume:second-run-only-failures-left", 2)
+    need("resume:store-level-compared", 8)
+    need("dest-is-directory:cases", 10)
+    need("two-fault:delivered:audit:error", 10)
+    need("two-fault:delivered:audit:kill", 10)
+    need("two-fault:delivered:strace:error", 10)
+    need("two-fault:delivered:strace:kill", 10)
+    for fam in FAMILIES:
+        need(f"dest-is-directory:{fam}", 2)
     for fam in FAMILIES:
         if not any(k.startswith(f"exhaustive:{fam}:") and k.endswith(":audit") for k in counters):
             miss.append(f"no completely enumerated audit case for writer family {fam}")
@@ -682,7 +842,7 @@ def required(counters, tier):
         for inj in ("audit", "strace"):
             if not any(k.startswith("exhaustive:") and k.endswith(f":{tg}:{inj}") for k in counters):
                 miss.append(f"no completely enumerated {inj} case for target kind {tg}")
-    for bad in ("cases-incomplete", "strace:prefix-mismatch", "strace:undelivered", "audit:undelivered", "strace:attach-failed"):
+    for bad in ("cases-incomplete", "strace:prefix-mismatch", "strace:undelivered", "audit:undelivered", "strace:attach-failed", "two-fault:record-failed"):
         if counters.get(bad, 0):
             miss.append(f"{bad} = {counters[bad]} (every numbered boundary must receive every fault)")
     return miss
